@@ -97,7 +97,7 @@ func runBLS(t *core.Tape, info *core.RunInfo) *core.Violation {
 	onG1 := t.Bool("cfg.group", 500)
 	n := 2 + t.Intn("cfg", 5)
 	th := 2 + t.Intn("cfg", n-1)
-	msg := t.Bytes("cfg", 1+t.Intn("cfg", 60))
+	msg := kit.DrawMsg(t, "cfg", 60)
 	assign := make([]int, n+1) // node -> back-end; node n is the dealer
 	used := map[int]bool{}
 	var an []string
@@ -383,7 +383,7 @@ func runEd(t *core.Tape, info *core.RunInfo) *core.Violation {
 		info.Events++
 	}
 	// Schnorr between the constant-time implementation and its opt-in variable-time path (same wire format)
-	msg := t.Bytes("cfg", 1+t.Intn("cfg", 40))
+	msg := kit.DrawMsg(t, "cfg", 40)
 	x := k1
 	if x.Equal(ct.Scalar().Zero()) {
 		x = ct.Scalar().One()
